@@ -36,7 +36,8 @@ func run(c *vf.Ctx) {
 	selfTest(c)
 	c.Rule("Send: payload lengths {0,1,2,0xFFFE,0xFFFF,0x10000,0x10001,0x1FFFE,0x1FFFF,0x20000,0x20001,0x2FFFF} (thorough: all 0..300 and 2^k-1,2^k,2^k+1 up to 2^18) x 2 contents, plus all sequences of 3 sends over lengths {0,1,2}; " +
 		"Receive: streams of 1..3 frames; total length <= 12 (thorough 14): every subset of the n-1 byte boundaries as segment boundaries (2^(n-1) segmentations) combined with every cut offset 0..n; " +
-		"large frames (0xFFFF,0x10000,0x1FFFF and mixed streams): every single boundary, every cut offset, and every pair of boundaries/cut within 2 bytes of a header or body edge; end of stream = EOF, EOF returned together with the last bytes (thorough: ECONNRESET). " +
+		"large frames (0xFFFF,0x10000,0x1FFFF and mixed streams): every single boundary, every cut offset, and every pair of boundaries/cut within 2 bytes of a header or body edge; end of stream = EOF, EOF returned together with the last bytes (thorough: ECONNRESET); " +
+		"two connections in a row on one transport: 4 first streams x every prefix x every segmentation x every number of Receive calls x with/without Close x 3 second streams, then Send. " +
 		"distinct = distinct (stream, segmentation, cut, end kind) scripts executed against Receive, distinct (length, content) for Send")
 	c.Assume("net.Conn contract: Read returns 1..len(p) bytes of the stream in order or an error; Write takes the whole buffer; the scripted conn never blocks, so a Receive that waits for more data than the stream holds gets the end-of-stream error")
 	c.Assume("network/netbios/session.go only defines the session message type constants and smb_v10/transport.NewTransport(\"nbt\") returns the same *nbt.NBTTransport; neither adds framing of its own (checked: the factory result is exercised through the Transport interface)")
@@ -46,6 +47,9 @@ func run(c *vf.Ctx) {
 	t0 = time.Now()
 	receiveSmall(c)
 	c.Set("phase_receive_small_s", time.Since(t0).Seconds())
+	t0 = time.Now()
+	reconnect(c)
+	c.Set("phase_reconnect_s", time.Since(t0).Seconds())
 	t0 = time.Now()
 	receiveLarge(c)
 	c.Set("phase_receive_large_s", time.Since(t0).Seconds())
@@ -458,6 +462,123 @@ func runScript(c *vf.Ctx, sc *script, obs func(string)) {
 		})
 		obs(fmt.Sprintf("e:%v", err != nil))
 	}
+}
+
+// ------------------------------------------------------------------ one transport, two connections in a row
+
+// reconnect explores the histories [connection A; k Receives; (Close)?; connection B; Receive ... until error;
+// Send]: framing is per connection, so everything read after the switch must be B's frames, from B's first
+// byte, whatever had already arrived on A (a second frame or half a frame in the same segment), and a
+// Send goes to B only. Replacing the connection is modelled by storing the new net.Conn in the transport,
+// which is all Connect does with a successful dial.
+func reconnect(c *vf.Ctx) {
+	type lensT = []int
+	as := []lensT{{1}, {1, 2}, {0, 1}, {2, 0, 1}}
+	bs := []lensT{{2}, {3, 0}, {0}}
+	pre := "C11/reconnect/"
+	n := 0
+	for _, al := range as {
+		A := mkStream(al, 0)
+		for _, bl := range bs {
+			B := &stream{lens: bl, class: "frames-under-64KiB"}
+			for i, L := range bl {
+				B.bytes = append(B.bytes, frame(content(L, byte(0x80+29*i), 0))...)
+				B.ends = append(B.ends, len(B.bytes))
+			}
+			for cutA := 0; cutA <= len(A.bytes); cutA++ {
+				complete := 0
+				for complete < len(A.ends) && A.ends[complete] <= cutA {
+					complete++
+				}
+				nb := cutA - 1
+				if nb < 0 {
+					nb = 0
+				}
+				for segMask := 0; segMask < 1<<uint(nb); segMask++ {
+					var segs []int
+					for b := 0; b < nb; b++ {
+						if segMask>>uint(b)&1 == 1 {
+							segs = append(segs, b+1)
+						}
+					}
+					segs = append(segs, cutA)
+					for k := 0; k <= complete; k++ {
+						for _, closeFirst := range []bool{false, true} {
+							n++
+							c.Case([]byte("reconnect"), A.bytes, B.bytes, []byte{byte(cutA), byte(segMask), byte(segMask >> 8), byte(k), boolB(closeFirst)})
+							desc := func() string {
+								return fmt.Sprintf("connection A carries frames with payload lengths %v (%d of its %d bytes arrived, segment ends %v); %d Receive calls; Close=%v; then connection B carrying frames with payload lengths %v", al, cutA, len(A.bytes), segs, k, closeFirst, bl)
+							}
+							ca := &scriptConn{stream: A.bytes[:cutA], segs: segs}
+							t := newTransport(c, ca)
+							okA := true
+							for i := 0; i < k && okA; i++ {
+								var got []byte
+								var err error
+								if p, msg, where := vf.Try(func() { got, err = t.Receive() }); p {
+									c.Fail("C11/receive/no-panic@"+where, fmt.Sprintf("Receive panicked: %s; %s", msg, desc()))
+									okA = false
+									break
+								}
+								okA = err == nil && bytes.Equal(got, A.payload(i))
+								c.Check(pre+"first-connection-frames-delivered-intact", okA, func() string {
+									return fmt.Sprintf("%s: Receive call %d on A returned %s err=%v, want %s", desc(), i+1, vf.HexS(got), err, vf.HexS(A.payload(i)))
+								})
+							}
+							if !okA {
+								continue
+							}
+							if closeFirst {
+								vf.Try(func() { t.Close() })
+							}
+							cb := &scriptConn{stream: B.bytes}
+							if err := inject(t, cb); err != nil {
+								c.Fatalf("inject: %v", err)
+							}
+							for i := 0; i <= len(bl); i++ {
+								var got []byte
+								var err error
+								if p, msg, where := vf.Try(func() { got, err = t.Receive() }); p {
+									c.Fail("C11/receive/no-panic@"+where, fmt.Sprintf("Receive panicked: %s; %s", msg, desc()))
+									break
+								}
+								if i < len(bl) {
+									ok := err == nil && bytes.Equal(got, B.payload(i))
+									c.Check(pre+"after-switching-connections-Receive-delivers-the-new-connections-frames", ok, func() string {
+										return fmt.Sprintf("%s: Receive call %d after the switch returned %s err=%v, want B's frame %d = %s", desc(), i+1, vf.HexS(got), err, i+1, vf.HexS(B.payload(i)))
+									})
+									if !ok {
+										break
+									}
+									continue
+								}
+								c.Check(pre+"after-switching-connections-end-of-stream-is-an-error", err != nil && len(got) == 0, func() string {
+									return fmt.Sprintf("%s: after B's last frame Receive returned %s err=%v", desc(), vf.HexS(got), err)
+								})
+							}
+							msg := []byte{0xde, 0xad}
+							var serr error
+							if p, m, where := vf.Try(func() { _, serr = t.Send(msg) }); p {
+								c.Fail("C11/send/no-panic@"+where, fmt.Sprintf("Send panicked: %s; %s", m, desc()))
+								continue
+							}
+							c.Check(pre+"after-switching-connections-Send-writes-one-frame-to-the-new-connection-only", serr == nil && bytes.Equal(cb.written(), frame(msg)) && len(ca.written()) == 0, func() string {
+								return fmt.Sprintf("%s: Send(dead) err=%v wrote %s to B and %s to A", desc(), serr, vf.HexS(cb.written()), vf.HexS(ca.written()))
+							})
+						}
+					}
+				}
+			}
+		}
+	}
+	c.Set("reconnect_histories", n)
+}
+
+func boolB(b bool) byte {
+	if b {
+		return 1
+	}
+	return 0
 }
 
 // ------------------------------------------------------------------ small streams: all segmentations x all cuts
